@@ -26,7 +26,7 @@ var zzWantSNI = []string{"example.com", "", "", "example.com", "", "", zzNameSha
 func zzHasPSK(h *zzRefHello) bool { _, ok := h.ext(41); return ok }
 
 func zzSpecHasPSK(id ClientHelloID) bool {
-	spec, err := UTLSIdToSpec(id)
+	spec, err := zzRefSpec(id)
 	if err != nil {
 		return false
 	}
@@ -79,7 +79,7 @@ func zzC02ParrotsValid() {
 //verif:harness C03 parrot_matches_spec unwind=4000 instrs=400000000 paths=60000
 //verif:stub (*math/rand.Rand).Shuffle zzStubShuffleOneSwap
 //verif:expect end
-//verif:doc Every predefined parrot: the wire hello equals an independent reference encoding of a fresh UTLSIdToSpec(id) — legacy_version min(max,1.2), cipher suites and compression, extension code-point sequence (same multiset with GREASE/padding/PSK fixed for shuffling parrots) and every extension body — modulo exactly the per-connection material C03 lists. All random bytes symbolic; Config.NextProtos unset or {http/1.1}; for shuffling parrots the shuffle performs zero or one arbitrary legal swap.
+//verif:doc Every predefined parrot: the wire hello equals an independent reference encoding of a fresh zzRefSpec(id) — legacy_version min(max,1.2), cipher suites and compression, extension code-point sequence (same multiset with GREASE/padding/PSK fixed for shuffling parrots) and every extension body — modulo exactly the per-connection material C03 lists. All random bytes symbolic; Config.NextProtos unset or {http/1.1}; for shuffling parrots the shuffle performs zero or one arbitrary legal swap.
 func zzC03ParrotMatchesSpec() {
 	p := zzChooseParrot()
 	cfg := zzConfig("example.com")
@@ -100,7 +100,7 @@ func zzC03ParrotMatchesSpec() {
 		verifReach("end")
 		return
 	}
-	spec, serr := UTLSIdToSpec(p.id)
+	spec, serr := zzRefSpec(p.id)
 	verifAssertClass(serr == nil, "spec-available", p.name)
 	// legacy_version
 	maxV := spec.TLSVersMax
@@ -237,7 +237,7 @@ func zzC04WireGrease() {
 		verifReach("end")
 		return
 	}
-	spec, _ := UTLSIdToSpec(p.id)
+	spec, _ := zzRefSpec(p.id)
 	h, why := zzRefParseClientHello(uc.HandshakeState.Hello.Raw)
 	verifAssertClass(why == "", "hello-parses-strictly", p.name+":"+why)
 	if why != "" {
@@ -331,7 +331,7 @@ func zzC04WireGrease() {
 //verif:doc Every predefined parrot whose spec carries a BoringSSL-style padding extension x SNI lengths (quick: 12 lengths spread over 1..253; thorough: every length 1..253) x ALPN on/off, all random bytes symbolic: with U = handshake message length without the padding extension, 255 < U < 512 => total 512 (or a 1-byte body when fewer than 5 bytes are missing), otherwise no padding extension; body all zero; at most one padding extension.
 func zzC05ParrotPaddingLength() {
 	p := zzChooseParrot()
-	spec, _ := UTLSIdToSpec(p.id)
+	spec, _ := zzRefSpec(p.id)
 	hasPad := false
 	for _, e := range spec.Extensions {
 		if _, ok := e.(*UtlsPaddingExtension); ok {
@@ -414,7 +414,7 @@ func zzC18KeySharesBacked() {
 		verifAssertClass(ok, "key-share-parses", p.name)
 		classical := 0
 		var specShares []KeyShare
-		if sp, e := UTLSIdToSpec(p.id); e == nil {
+		if sp, e := zzRefSpec(p.id); e == nil {
 			for _, x := range sp.Extensions {
 				if kse, ok := x.(*KeyShareExtension); ok {
 					specShares = kse.KeyShares
@@ -474,7 +474,7 @@ func zzC18KeySharesBacked() {
 //verif:doc Every predefined parrot whose spec carries a GREASE ECH extension (no real ECH config): the wire extension is a well-formed outer ECH extension, (KDF, AEAD) and payload length come from the spec's candidates (+16-byte tag), the encapsulated key is 32 bytes, and a second marshal (the HelloRetryRequest path) emits identical bytes.
 func zzC16GreaseECHOnWire() {
 	p := zzChooseParrot()
-	spec, _ := UTLSIdToSpec(p.id)
+	spec, _ := zzRefSpec(p.id)
 	var g *GREASEEncryptedClientHelloExtension
 	for _, e := range spec.Extensions {
 		if x, ok := e.(*GREASEEncryptedClientHelloExtension); ok {
